@@ -295,6 +295,7 @@ func runBatchR(ctx *core.Ctx, mode, dir, tag string, items []WorkItem, profile b
 	remaining := items
 	attempt := 0
 	timeouts := map[int]int{}
+	fatals := 0
 	var allSites []AllocSite // accumulated over all attempts (a worker restart must not lose earlier sites)
 	for len(remaining) > 0 {
 		attempt++
@@ -410,9 +411,17 @@ func runBatchR(ctx *core.Ctx, mode, dir, tag string, items []WorkItem, profile b
 		} else {
 			r.Fatal = fatalClass(string(eb), runErr)
 			r.Entry = openEntry
+			fatals++
 		}
 		idx := indexOfItem(remaining, openID)
 		remaining = remaining[idx+1:]
+		if fatals >= 6 && len(remaining) > 0 {
+			// every death is already reported as a violation; restarting the worker over and over for the rest
+			// of the batch adds little and can take very long when most inputs kill it
+			rep.Note("batch %s: abandoned %d remaining inputs after %d worker deaths", tag, len(remaining), fatals)
+			rep.Count("inputs_not_run_after_repeated_worker_deaths", int64(len(remaining)))
+			break
+		}
 	}
 	return out
 }
